@@ -13,6 +13,8 @@ func run(s *kernel.Sim, prop, cfg string) {
 	switch prop {
 	case "C01":
 		runC01(s, cfg)
+	case "C03":
+		runC03(s, cfg)
 	case "C06":
 		runC06(s, cfg)
 	case "C08":
